@@ -439,8 +439,10 @@ fn fnv(h: &mut u64, bytes: &[u8]) {
 impl<'a> Exec<'a> {
     pub fn new(cfg: &'a crate::ops::Config, layout_index: u16) -> Exec<'a> {
         new_world(layout_index, cfg.n);
+        let mut mon = Mon::new();
+        mon.key_includes_past = cfg.past;
         Exec {
-            mon: Mon::new(),
+            mon,
             cfg,
             out: Outcome::default(),
             died_op: 0,
@@ -487,6 +489,7 @@ impl<'a> Exec<'a> {
             self.mon.viol.push(Viol { clause: "MACHINERY", sig: "event-log-overflow".into(), detail: String::new() });
         }
         let mut saw_script = false;
+        let mut saw_panic_script = false;
         for i in 0..n {
             let e = payload::log().ev[i];
             if self.verbose {
@@ -494,10 +497,21 @@ impl<'a> Exec<'a> {
             }
             if let Ev::Script(owner, s, res) = e {
                 saw_script = true;
+                if s == Script::Panic {
+                    saw_panic_script = true;
+                }
                 self.apply_script(owner, s, res);
             } else {
                 self.mon.process_event(e);
             }
+        }
+        if saw_panic_script && !panicked {
+            self.mon.viol.push(Viol {
+                clause: "K11",
+                sig: "panic-not-propagated".into(),
+                detail: "a value's destructor panicked during the call but the call returned normally: the panic did not reach the caller of drop".into(),
+            });
+            self.mon.panicked = true;
         }
         if panicked {
             if script_panic {
@@ -1255,19 +1269,19 @@ impl<'a> Exec<'a> {
     pub fn probe(&mut self) -> u64 {
         let mut d: u64 = 0xcbf29ce484222325;
         for o in 0..self.mon.n {
-            while self.mon.ext[o as usize] > 0 && self.mon.viol.is_empty() {
+            while self.mon.ext[o as usize] > 0 && self.mon.viol.iter().all(|v| soft(v.clause)) {
                 self.step(Op::Drop(o));
                 fnv(&mut d, &[0, o, self.out.died_last]);
             }
         }
         for o in 0..self.mon.n {
-            if self.mon.status[o as usize] == Status::Unwrapped && self.mon.viol.is_empty() {
+            if self.mon.status[o as usize] == Status::Unwrapped && self.mon.viol.iter().all(|v| soft(v.clause)) {
                 self.step(Op::DropUnwrapped(o));
                 fnv(&mut d, &[1, o, self.out.died_last]);
             }
         }
         for o in 0..self.mon.n {
-            while self.mon.extw[o as usize] > 0 && self.mon.viol.is_empty() {
+            while self.mon.extw[o as usize] > 0 && self.mon.viol.iter().all(|v| soft(v.clause)) {
                 self.step(Op::DropWeak(o));
                 fnv(&mut d, &[2, o, self.out.died_last]);
             }
@@ -1327,6 +1341,16 @@ fn find_stored(o: u8) -> Option<Rc<Node>> {
     None
 }
 
+/// Violations after which the state of program and library is still well
+/// defined (something was not collected, not released, miscounted or
+/// mis-recorded): the explorer reports them and keeps exploring from the state,
+/// so that a later violation of another property on the same path is not hidden.
+/// Everything else (a reachable object destroyed, a destructor run twice, a
+/// memory error, a wrong Weak answer, a machinery error) ends the path.
+pub fn soft(clause: &str) -> bool {
+    matches!(clause, "K3" | "K4" | "K8" | "K14")
+}
+
 /// Execute a whole history under one layout. The oracle runs after every step.
 /// If `probe` is set the closing probe follows the last operation.
 pub fn run_history(cfg: &crate::ops::Config, layout_index: u16, ops: &[Op], probe: bool, verbose: bool, check_cost: bool) -> (Mon, Outcome) {
@@ -1348,7 +1372,15 @@ pub fn run_history_from(cfg: &crate::ops::Config, layout_index: u16, ops: &[Op],
         ex.observing = i >= validated;
         unsafe { *BENIGN_ACTIVE.0.get() = *BENIGN_CLONE_OWN.0.get() && i >= validated };
         ex.step(op);
-        if !ex.mon.viol.is_empty() {
+        if i < validated {
+            // the prefix was explored (and its violations, all of the kind that
+            // leaves the state well defined, were reported) at an earlier level
+            if ex.mon.viol.iter().any(|v| !soft(v.clause)) {
+                break;
+            }
+            ex.mon.viol.clear();
+            ex.out.viol_step = None;
+        } else if !ex.mon.viol.is_empty() {
             break;
         }
     }
@@ -1357,7 +1389,7 @@ pub fn run_history_from(cfg: &crate::ops::Config, layout_index: u16, ops: &[Op],
     let key = ex.out.key;
     let died = ex.out.died_last;
     let mon_at_end = ex.mon.clone();
-    if probe && ex.mon.viol.is_empty() {
+    if probe && ex.mon.viol.iter().all(|v| soft(v.clause)) {
         let d = ex.probe();
         ex.out.probe_digest = d;
     }
